@@ -544,4 +544,83 @@ for n, pre in dvars:
         "function inner(defineComponent: any) { return defineComponent((p: Props) => {}); }",
         "export default defineComponent((p: { inline: boolean }) => {}, { name: 'N' });",
     ]), '{"resolveType":true,"optimize":true}')
+
+# ---- L. (after S52) the same key twice among several distinct ones, for everything that ends up in a keyed
+# collection: a de-duplication step is where an unordered container is most tempting
+w("dups/vmodels.jsx", "\n".join([
+    'const a = <Comp v-models={[[x], [y]]} />;',
+    'const b = <Comp v-models={[[x, "foo"], [y, "foo"], [z, "bar"], [w]]} />;',
+    'const c = <input v-models={[[x, "a"], [y, "b"], [z, "a"], [u, "c"], [v, "b"], [t, "d"]]} />;',
+    'const d = <Comp v-models={[[x, dyn], [y, dyn], [z, "s"], [w, "s"], [q]]} />;',
+    'const e = <Comp v-model={x} v-model={y} v-model:foo={z} v-model:foo={w} v-model:bar={u} />;',
+    'const f = <Comp v-models={[[x, "a", ["m"]], [y, "a", ["n"]], [z, "b"], [z2, "c"], [z3, "d"], [z4, "e"]]} />;',
+    'const g = <input v-model={x} v-models={[[y], [z, "value"], [w, "value"]]} />;',
+    'const h = <Comp v-models={[[x], [y], [z], [w, "k1"], [w, "k2"], [w, "k3"], [w, "k4"]]} />;',
+]))
+w("dups/attrs.jsx", "\n".join([
+    'const a = <div a={1} b={2} a={3} c={4} b={5} d={6} e={7} a="8" />;',
+    'const b = <Comp a={1} b={2} a={3} c={4} b={5} d={6} e={7} a="8">{k}</Comp>;',
+    'const c = <div class="a" style={s} class={b} onClick={f} style="c" onClick={g} class={[d]} onClick={h} onInput={i} />;',
+    'const d = <div {...{ a: 1, b: 2, a: 3, c: 4, b: 5, d, e, d }} {...{ f, g, f }} />;',
+    'const e = <div on={o1} on={o2} nativeOn={n1} on={{ click: f, click: g, input: h }} />;',
+    'const f = <div a={x} {...s} a={y} {...s} a={z} b={w} />;',
+    'const g = <Comp key="k" key={k2} ref="r" ref={r2} v-slots={s1} v-slots={s2}>{k}</Comp>;',
+    'const h = <div onUpdate:modelValue={f} modelValue={m} onUpdate:modelValue={g} modelValue={n} v-model={o} />;',
+]))
+w("dups/directives.jsx", "\n".join([
+    'const a = <div v-show={x} v-show={y} v-custom={z} v-custom={w} v-other:arg={u} v-other:arg2={v} />;',
+    'const b = <div v-foo_a_b_a_c_b_d={x} />;', 'const c = <div v-foo={[x, "arg", ["m", "n", "m", "o", "n", "p"]]} />;',
+    'const d = <input v-model_trim_lazy_trim_number_lazy={x} />;', 'const e = <Comp v-model:val_a_b_a_c={x} />;',
+    'const f = <div v-html={h1} v-html={h2} v-text={t1} v-text={t2} innerHTML={h3} />;',
+    'const g = <div v-a={1} v-b={2} v-a={3} v-c={4} v-b={5} v-d={6} vA={7} />;',
+]))
+w("dups/types.tsx", hdr + "\n".join([
+    "interface Dup { a: string; b: number; a: boolean; c: Date; b: string[]; d?: symbol; e: 1; d: 2 }",
+    "interface Merge { a: string; m1: number } interface Merge { a: number; m2: string } interface Merge { m1: boolean; m3: null; m4: 4; m5: 5 }",
+    "type U = 'a' | 'b' | 'a' | 'c' | 'b' | 'd' | 'e' | 'f';", "type Ev = { (e: 'change', v: string): void; (e: 'input'): void; (e: 'change', v: number): void; (e: 'blur'): void; (e: 'input', x: 1): void; (e: 'focus'): void; (e: 'k'): void };",
+    "interface EvBase { (e: 'change'): void; (e: 'base'): void } interface EvExt extends EvBase { (e: 'change'): void; (e: 'ext'): void; (e: 'base', x: 1): void; (e: 'more'): void }",
+    "const A = defineComponent((p: Dup, c: SetupContext<Ev>) => {});", "const B = defineComponent((p: Merge, c: SetupContext<EvExt>) => {});",
+    "const C = defineComponent((p: Pick<Dup, 'a' | 'a' | 'b' | 'c' | 'b'> & Omit<Merge, 'a' | 'a'>, c: SetupContext<(e: U) => void>) => {});",
+    "const D = defineComponent((p: { k: U; a?: string; b?: number } = { a: 'x', b: 1, a: 'y', zz: 1, yy: 2, xx: 3, ww: 4, vv: 5, zz: 6 }) => {});",
+    "const E = defineComponent((p: { a?: string } = { a: 'x', b: 1, c: 2, d: 3, e: 4, f: 5, g() {}, get h() { return 1 } }) => {});",
+    "const F = defineComponent((p: Dup & Merge & Dup, c: SetupContext<{ change: []; input: [x: number]; change: [y: string]; blur: []; focus: []; k: [] }>) => {});",
+    "const G = defineComponent((p: { u: U; v: 'x' | 1 | 'x' | true | 1 | null }) => {});",
+]), '{"resolveType":true,"optimize":true}')
+w("dups/imports.jsx", "\n".join([
+    "import { Fragment } from 'vue';", "import { Fragment as F2, createVNode, createVNode as cv, resolveComponent } from 'vue';", "import * as V1 from 'vue';", "import * as V2 from 'vue';", "import V3, { withDirectives, vShow, vShow as show2 } from 'vue';",
+    "const a = <><Fragment><F2>{x}</F2></Fragment></>;", "const b = <Comp v-show={s}>{y}</Comp>;", "const c = <KeepAlive><A>{z}</A></KeepAlive>;", "const d = <div {...p} {...q} class={c1} />;",
+]))
+
+# ---- M. (after S50) a component that needs a temporary / a captured copy, in every syntactic position an
+# expression can occupy - one module per position, so that a position the pass mishandles is a module that fails
+slot = "<A>{foo()}</A>"
+cap = "<B>{x}</B>"
+positions = {
+    "arrow-expr-param-default": f"const f = (a = {slot}) => a;",
+    "arrow-block-param-default": f"const f = (a = {slot}) => {{ return a; }};",
+    "arrow-block-two-defaults": f"const f = (a = {slot}, b = {slot}) => {{ const c = {slot}; return [a, b, c]; }};",
+    "arrow-destructured-default": f"const f = ({{ a = {slot}, b: [c = {slot}] }}) => {{ return a; }};",
+    "arrow-nested-block-in-expr": f"const pre = {slot}; const f = () => <L>{{items.map((i) => {{ return <I>{{fmt(i)}}</I>; }})}}</L>;",
+    "function-param-default": f"function f(a = {slot}, {{ b = {slot} }} = {{}}) {{ return a; }}",
+    "function-expr-param-default": f"const f = function (a = {slot}) {{ return {slot}; }};",
+    "method-param-default": f"const o = {{ m(a = {slot}) {{ return a; }}, get g() {{ return {slot}; }}, set s(v = {slot}) {{}} }};",
+    "class-members": f"class K {{ f = {slot}; static s = {slot}; #p = {slot}; m(a = {slot}) {{ return {slot}; }} static {{ init({slot}); }} constructor(a = {slot}) {{ this.a = a; }} }}",
+    "class-extends": f"class K extends mix({slot}) {{ m() {{ return {slot}; }} }}",
+    "async-generator": f"async function* g(a = {slot}) {{ yield {slot}; const r = await {slot}; yield* [{slot}]; return r; }}",
+    "template-and-tagged": f"const t = `a${{{slot}}}b${{{slot}}}`; const u = tag`x${{{slot}}}`;",
+    "conditions-and-loops": f"if ({slot}) {{ r = {slot}; }} else r = {slot}; while (cond({slot})) {{ break; }} do {{ r = {slot}; }} while (cond({slot})); for (let i = {slot}; i < n({slot}); i = next({slot})) {{ r = {slot}; }} for (const k in obj({slot})) {{ r = {slot}; }} for (const v of list({slot})) r = {slot};",
+    "switch-throw-try": f"switch (sel({slot})) {{ case key({slot}): r = {slot}; break; default: r = {slot}; }} try {{ throw {slot}; }} catch (e) {{ r = {slot}; }} finally {{ r = {slot}; }}",
+    "operators": f"const o1 = cond ? {slot} : {slot}; const o2 = a && {slot} || {slot}; const o3 = a ?? {slot}; const o4 = ({slot}, {slot}); const o5 = [{slot}, ...[{slot}]]; const o6 = {{ a: {slot}, ...spread({slot}), b: [{slot}] }}; const o7 = fn({slot})?.m({slot}); const o8 = new K({slot}); const o9 = typeof {slot}; r ??= {slot}; r ||= {slot};",
+    "export-default-arrow": f"export default (a = {slot}) => {{ return {slot}; }};",
+    "export-default-expr": f"export default {slot};",
+    "labels-blocks": f"outer: {{ const a = {slot}; inner: for (;;) {{ const b = {slot}; break outer; }} }} {{ {{ const c = {slot}; }} }}",
+    "iife": f"const r = (() => {{ const a = {slot}; return (function () {{ return {slot}; }})(); }})(); (function (a = {slot}) {{}})();",
+    "capture-in-arrow-default": f"x = 0; const f = (p = (x = {cap})) => {{ return p; }};",
+    "capture-nested": f"x = 1; function f() {{ x = {cap}; return () => {{ x = {cap}; return (q = (x = {cap})) => q; }}; }}",
+    "capture-after-unrelated": f"x = 1; y = 2; const v = <C>{{x}}</C>; const w = <C>{{y}}</C>; y = <C>{{y}}</C>; x = <C>{{y}}</C>;",
+    "slot-and-capture-mixed": f"x = 0; const f = (a = {slot}, b = (x = {cap})) => {{ const c = {slot}; return () => (x = {cap}); }};",
+}
+for n, body in positions.items():
+    w(f"positions/{n}.jsx", body)
+w("positions/all-in-one.jsx", "\n".join(b for n, b in positions.items() if not n.startswith("export-default")))
 print("generated under", os.path.normpath(root))
